@@ -160,6 +160,55 @@ def grid_designs():
                     out.append(d)
     out += index_designs(k)
     out += func_designs(k + 1000)
+    out += deep_designs(k + 2000)
+    return out
+
+
+def deep_designs(k0=0):
+    """K-grid, nesting-depth cells: the written objects lie two or three levels below the top-level
+    signal (slices of a nested field, nested fields), the reader reads a strictly INTERMEDIATE level
+    (the nested leaf, the inner struct as a whole) or the whole signal."""
+    out = []
+    k = k0
+    for via in ("blk", "net"):
+        for reader in ("leaf", "inner", "whole", "leafslice"):
+            for split in ("slices", "fields"):
+                d = _mk("G%d" % k)
+                k += 1
+                xin = d.add_sig((), "a", "in", "N10")
+                yin = d.add_sig((), "b", "in", 8)
+                x = d.add_sig((), "x", "wire", "N10")
+                if split == "slices":
+                    parts = [View(x, ("p", "a"), (0, 2)), View(x, ("p", "a"), (2, 4)), View(x, ("p", "b")), View(x, ("c",))]
+                    srcs = [View(xin, ("p", "a"), (0, 2)), View(xin, ("p", "a"), (2, 4)), View(xin, ("p", "b")), View(xin, ("c",))]
+                else:
+                    parts = [View(x, ("p", "a")), View(x, ("p", "b")), View(x, ("c",))]
+                    srcs = [View(xin, ("p", "a")), View(xin, ("p", "b")), View(xin, ("c",))]
+                for j, (tv, sv) in enumerate(zip(parts, srcs)):
+                    if via == "net" and j == 0:
+                        conn(d, sv, tv, ())
+                    else:
+                        blk(d, "w%d" % j, (), [as_(tv, xor(rd(sv), rd(View(yin, (), (0, tv.w))), tv.w))])
+                if reader == "leaf":
+                    o = d.add_sig((), "o", "out", 4)
+                    blk(d, "r0", (), [as_(View(o), rd(View(x, ("p", "a"))))])
+                    nxt = rd(View(o))
+                elif reader == "leafslice":
+                    o = d.add_sig((), "o", "out", 4)
+                    blk(d, "r0", (), [as_(View(o), {"k": "zext", "a": rd(View(x, ("p", "a"), (1, 3))), "w": 4})])
+                    nxt = rd(View(o))
+                elif reader == "inner":
+                    o = d.add_sig((), "o", "out", "P8")
+                    blk(d, "r0", (), [as_(View(o), rd(View(x, ("p",))))])
+                    nxt = rd(View(o, ("a",)))
+                else:
+                    o = d.add_sig((), "o", "out", "N10")
+                    blk(d, "r0", (), [as_(View(o), rd(View(x)))])
+                    nxt = rd(View(o, ("p", "a")))
+                o2 = d.add_sig((), "o2", "out", 4)
+                blk(d, "r1", (), [as_(View(o2), add(nxt, lit(4, 1), 4))])
+                d.family = "grid"
+                out.append(d)
     return out
 
 
